@@ -21,6 +21,68 @@ def idx(buf, i):
     return T.proj(T.deref(buf), ("idx", T.const("usize", i)))
 
 
+def _strip(x):
+    while x.op in ("deref", "refval", "ref") and x.op != "ref":
+        x = x.args[0]
+    return x
+
+
+def first4_elem(x, buf):
+    """x is byte i (< 4) of buf, read directly or through a view of its first four bytes: returns i or None"""
+    if x.op == "proj" and x.args[1][0] == "idx" and x.args[1][1].op == "const":
+        i, base = x.args[1][1].args[1], _strip(x.args[0])
+        if base is buf and 0 <= i < 4:
+            return i
+        if is_first4(base, buf) and 0 <= i < 4:
+            return i
+    return None
+
+
+def is_first4(x, buf):
+    """x denotes exactly the bytes buf[0..4] (as an array, a slice view or the head of a split)"""
+    x = _strip(x)
+    c4 = lambda t: t.op == "const" and t.args[1] == 4
+    c0 = lambda t: t.op == "const" and t.args[1] == 0
+    if x.op == "agg" and x.args[0] == "array" and len(x.args[4]) == 4:
+        return all(first4_elem(e, buf) == i for i, e in enumerate(x.args[4]))
+    if x.op == "proj" and x.args[1][:2] == ("f", 0) and x.args[0].op == "call" and x.args[0].args[0] in ("[T]::split_at",):
+        a = x.args[0].args[2]
+        return _strip(a[0]) is buf and c4(a[1])
+    if x.op == "payload" and x.args[1] in ("Some", "Ok") and x.args[0].op == "call":
+        f, a = x.args[0].args[0], x.args[0].args[2]
+        if f in ("[T]::get", "[T]::first_chunk", "[T]::split_at_checked", "[T]::split_first_chunk") and _strip(a[0]) is buf:
+            if f == "[T]::get" and a[1].op == "agg" and a[1].args[1] in ("ops::Range", "ops::RangeTo"):
+                r = a[1].args[4]
+                return c4(r[-1]) and (len(r) == 1 or c0(r[0]))
+            return False
+        if f in ("convert::TryInto::try_into", "convert::TryFrom::try_from") and len(a) == 1:
+            return is_first4(a[0], buf)
+    if x.op == "call" and x.args[0] == "ops::Index::index" and _strip(x.args[2][0]) is buf:
+        r = x.args[2][1]
+        if r.op == "agg" and r.args[1] in ("ops::Range", "ops::RangeTo"):
+            return c4(r.args[4][-1]) and (len(r.args[4]) == 1 or c0(r.args[4][0]))
+    return False
+
+
+def is_magic_const(x, magic_bytes):
+    x = _strip(x)
+    if x.op == "bytes":
+        return bytes(x.args[0]) == bytes(magic_bytes)
+    if x.op == "agg" and x.args[0] == "array":
+        return [e.args[1] if e.op == "const" else None for e in x.args[4]] == list(magic_bytes)
+    return False
+
+
+def magic_truth(facts, buf, magic_bytes):
+    """truth, on this path, of `buf[0..4] == ELFMAGIC` (whatever view of the four bytes the comparison is written on); None if untested"""
+    for f in facts:
+        if f[0] in ("true", "false") and f[1].op == "bin" and f[1].args[0] in ("Eq", "Ne"):
+            a, b = f[1].args[1], f[1].args[2]
+            if (is_first4(a, buf) and is_magic_const(b, magic_bytes)) or (is_first4(b, buf) and is_magic_const(a, magic_bytes)):
+                return (f[0] == "true") == (f[1].args[0] == "Eq")
+    return None
+
+
 def run(ctx, rep):
     F = ctx.facts()
     LSB, MSB = cval(F, "ELFDATA2LSB"), cval(F, "ELFDATA2MSB")
@@ -45,6 +107,12 @@ def run(ctx, rep):
             continue
         n += 1
         an = analyze_fn(F, fn)
+        # an impl written in terms of a sibling impl (`match AnyEndian::from_ei_data(b)? { Little => Ok(LittleEndian), .. }`):
+        # the sibling is described by cases, so that the accepted set is again a set of tests on the byte
+        sib = {c.callee_qual for c in an.calls() if c.callee_qual != q and c.callee_qual.endswith(" as endian::EndianParse>::from_ei_data")}
+        if sib:
+            from ..engine import Program
+            an = Program(F, dissolve=sib).analysis(fn)
         leaves = an.ret_leaves()
         accepted = {}
         ok = leaves is not None
@@ -61,8 +129,9 @@ def run(ctx, rep):
                 accepted[eqs[0]] = (v.args[1], v.args[3])
             elif t.op == "agg" and t.args[3] == "Err":
                 e = t.args[4][0]
-                good = (e.op == "agg" and e.args[3] == "UnsupportedElfEndianness" and e.args[4][0] is p1
-                        and not eqs and nes == sorted(want[st_].keys()))
+                # rejected: a value outside the accepted set (tested for directly, or every accepted value excluded)
+                outside = (eqs and all(k not in want[st_] for k in eqs)) or (not eqs and set(nes) >= set(want[st_].keys()))
+                good = e.op == "agg" and e.args[3] == "UnsupportedElfEndianness" and e.args[4][0] is p1 and outside
                 if not good:
                     ok = False
                     msgs.append("error outcome %s under guards eq %s ne %s; expected UnsupportedElfEndianness(ei_data) for every value outside %s"
@@ -89,8 +158,7 @@ def run(ctx, rep):
         from ..census import inherited_assumptions
         an = analyze_fn(F, fn, inherited_assumptions(F, fn))
         w = wh(fn["span"])
-        magic = T.proj(T.call("[T]::split_at", ("u8",), [p1, T.const("usize", 4)]), ("f", 0, None))
-        meq = T.bin("Eq", magic, T.deref(T.cbytes(magic_c["bytes"])), "&[u8]")
+        MT = lambda facts: magic_truth(facts, p1, magic_c["bytes"])
         ver = idx(p1, EI["EI_VERSION"])
         seen = set()
         for t, st in an.ret_leaves() or []:
@@ -99,22 +167,22 @@ def run(ctx, rep):
                 e = t.args[4][0]
                 if e.op == "agg" and e.args[3] == "BadMagic":
                     arr = e.args[4][0]
-                    wantarr = T.agg("array", None, 0, None, [T.proj(T.deref(magic), ("idx", T.const("usize", i))) for i in range(4)])
-                    good = arr is wantarr and an.truth(facts, meq) is False
+                    arr = an.simp(arr, facts)
+                    good = is_first4(arr, p1) and arr.op == "agg" and MT(facts) is False
                     rep.require(good, "ident", "verify_ident:BadMagic", w, "BadMagic([b0..b3]) iff bytes[0..4] != ELFMAGIC",
-                                "BadMagic outcome: payload %s under magic-equal=%s" % (pp(arr), an.truth(facts, meq)))
+                                "BadMagic outcome: payload %s under magic-equal=%s" % (pp(arr), MT(facts)))
                     seen.add("magic")
                 elif e.op == "agg" and e.args[3] == "UnsupportedVersion":
                     tup = e.args[4][0]
                     wanttup = T.agg("tuple", None, 0, None, [T.cast("IntToInt", ver, "u8", "u64"), T.const("u64", EI["EV_CURRENT"])])
-                    good = tup is wanttup and ("ne", ver, EI["EV_CURRENT"]) in facts and an.truth(facts, meq) is True
+                    good = tup is wanttup and ("ne", ver, EI["EV_CURRENT"]) in facts and MT(facts) is True
                     rep.require(good, "ident", "verify_ident:UnsupportedVersion", w, "UnsupportedVersion((data[6], 1)) iff magic ok and data[6] != 1",
                                 "UnsupportedVersion outcome: payload %s, guards %s" % (pp(tup), sorted(pp(f[1]) for f in facts if f[0] in ("eq", "ne"))))
                     seen.add("version")
                 else:
                     rep.bad("ident", "verify_ident:other-error", w, "UNRECOGNISED error outcome %s" % pp(t))
             elif t.op == "agg" and t.args[3] == "Ok":
-                good = ("eq", ver, EI["EV_CURRENT"]) in facts and an.truth(facts, meq) is True
+                good = ("eq", ver, EI["EV_CURRENT"]) in facts and MT(facts) is True
                 rep.require(good, "ident", "verify_ident:Ok", w, "Ok iff magic == ELFMAGIC and data[6] == EV_CURRENT",
                             "verify_ident succeeds under weaker conditions: %s" % sorted(str(f[:1]) + pp(f[1]) for f in facts))
                 seen.add("ok")
